@@ -118,6 +118,20 @@ CHECKS.update({
     ),
 })
 
+CHECKS.update({
+    "C10": (
+        "model_checking",
+        "vloop-explorer",
+        "exhaustive enumeration of message-arrival schedules under a controlled virtual clock (all sets of <=2/3 arrivals on the K/4 "
+        "grid over 12 K, every message kind, both processing orders at every tie, periodic traffic over 30 K, six dyadic keepalive "
+        "values plus the library default and a non-dyadic one) on the real connection, compared with a reference keepalive model",
+        "The clock is owned by the checker, so exact ping instants and the exact instant and cause of the close are compared for "
+        "every schedule of the bounded family, including arrivals that coincide with a tick or with the deadline in both orders.",
+        BASE,
+        "DESIGN.md §3 C10, §9",
+    ),
+})
+
 NOT_APPLICABLE: dict[str, str] = {}
 
 
